@@ -26,6 +26,7 @@ class Kind:
     fresh: bool = False                 # newly allocated container (not aliasing any input)
     empty: bool = False                 # provably empty container (bottom element for joins)
     alts: tuple = ()                    # per-path alternatives (order, why) when paths were joined
+    tags: frozenset = frozenset()       # semantic tags that survive copies only (e.g. 'closed': output of merge_sublists)
 
     def with_(self, **kw):
         return replace(self, **kw)
@@ -40,18 +41,19 @@ def join(a: Optional[Kind], b: Optional[Kind]) -> Kind:
     if b is None:
         return a
     if a.empty and b.empty:
-        return a.with_(alias=a.alias | b.alias, fresh=a.fresh and b.fresh)
+        return a.with_(alias=a.alias | b.alias, fresh=a.fresh and b.fresh, tags=a.tags & b.tags)
     if a.empty and not b.empty:
-        return b.with_(alias=a.alias | b.alias, fresh=a.fresh and b.fresh)
+        return b.with_(alias=a.alias | b.alias, fresh=a.fresh and b.fresh, tags=frozenset())
     if b.empty and not a.empty:
-        return a.with_(alias=a.alias | b.alias, fresh=a.fresh and b.fresh)
+        return a.with_(alias=a.alias | b.alias, fresh=a.fresh and b.fresh, tags=frozenset())
     order = a.order if a.order == b.order else UNKNOWN
     if {a.order, b.order} & {UNORDERED}:
         order = UNORDERED if a.order == b.order else UNORDERED   # may be unordered on some path
     inner = join(a.inner, b.inner) if (a.inner is not None and b.inner is not None) else None
     alts = tuple(dict.fromkeys((a.alts or ((a.order, a.why),)) + (b.alts or ((b.order, b.why),))))
     return Kind(order, inner, a.why if a.why == b.why else f"{a.why} | {b.why}", a.alias | b.alias,
-                a.perm_of if a.perm_of == b.perm_of else None, a.fresh and b.fresh, False, alts if len(alts) > 1 else ())
+                a.perm_of if a.perm_of == b.perm_of else None, a.fresh and b.fresh, False, alts if len(alts) > 1 else (),
+                a.tags & b.tags)
 
 
 def flip(k: Kind) -> Kind:
@@ -187,7 +189,7 @@ class OrdAnalysis:
             root = _root(base)
             self.events.append(("setitem", src(target), target, bk, list(self.loop_stack)))
             if root and root in self.env:
-                self.env[root] = self.env[root].with_(order=UNKNOWN, why=f"element store {src(target)}")
+                self.env[root] = self.env[root].with_(order=UNKNOWN, why=f"element store {src(target)}", tags=frozenset())
         elif isinstance(target, ast.Attribute):
             if isinstance(target.value, ast.Name) and target.value.id == "self":
                 self.env["self." + target.attr] = k
@@ -431,7 +433,8 @@ class OrdAnalysis:
                 self.events.append((m, src(f.value), e, args, list(self.loop_stack)))
                 self._mutation(root, f.value, e, m)
                 if isinstance(f.value, ast.Name) and f.value.id in self.env:
-                    cur = self.env[f.value.id]
+                    cur = self.env[f.value.id].with_(tags=frozenset())
+                    self.env[f.value.id] = cur
                     if m == "append":
                         if cur.empty:
                             keep = a0.order != UNKNOWN or a0.inner is not None or a0.why in CONSTRUCTION_WHYS
@@ -517,6 +520,8 @@ class OrdAnalysis:
             self.sub_analyses = getattr(self, "sub_analyses", [])
             self.sub_analyses.append(sub)
         rk, tup = res
+        if fi.name in TAG_FUNCTIONS:
+            rk = rk.with_(tags=rk.tags | {TAG_FUNCTIONS[fi.name]})
         # map callee-parameter aliases back to caller values
         def remap(k: Kind) -> Kind:
             al = set()
@@ -538,6 +543,7 @@ class OrdAnalysis:
 
 
 POSITIVE_NAMES = {"NM2ANGSTROM"}
+TAG_FUNCTIONS = {"merge_sublists": "closed"}      # result: disjoint, non-empty, sorted groups (transitive closure)
 CONSTRUCTION_WHYS = ("comprehension", "appended", "extend", "literal")
 
 
